@@ -213,6 +213,8 @@ class MultiTypeMap(dict):
         from .dependent import is_dependent
 
         self.clear()
+        self.all.clear()
+        self.errors.clear()
 
         obj_t_tup = sig.types
         entry = (handler, sig)
